@@ -95,7 +95,10 @@ func (l *enumValueLoader) commentEnd(lex lexeme.LexEvent) {
 		panic(errors.ErrLoader)
 	}
 
-	l.enumConstraint.SetComment(l.lastIdx, lex.Value().String())
+	// A note that stands before the first value has no value to belong to.
+	if l.lastIdx < l.enumConstraint.Len() {
+		l.enumConstraint.SetComment(l.lastIdx, lex.Value().String())
+	}
 	l.stateFunc = l.annotationEnd
 }
 
